@@ -9,6 +9,7 @@ import Rbql.Proofs.LiteralOpacity
 import Rbql.Proofs.Characterisations
 import Rbql.Proofs.RecordsSpec
 import Rbql.Spec.Comparable
+import Rbql.Theorems.C07
 namespace Rbql
 open LitOp
 
@@ -149,6 +150,24 @@ theorem C14_aggregate_first_error (q : SemQuery) (A1 : Table) (r : Row) (A2 B : 
     (run q (A1 ++ r :: A2) B).error = some e ∧ (run q (A1 ++ r :: A2) B).pulled = A1.length + 1 ∧
       (run q (A1 ++ r :: A2) B).rows = [] :=
   run_agg_first_error q A1 r A2 B hsel hagg ho hd hx hjb krs1 hk1 ag1 hf1 envs1 env envs2 hexp krs2 hk2 ag2 hf2 e herr
+
+/-! ## C07 — UPDATE keeps the header; C14 — mistakes visible in the query text stop the query before it reads anything -/
+
+/-- an UPDATE query's output header is the input header, and every record it emits is as wide as the record it came
+from (`C05_same_length_and_order`): for input records as wide as the header, header and records match -/
+theorem C07_update_header_is_input_header (ih : List Str) (r r' : Row) (hr : r.length = ih.length) (hw : r'.length = r.length) :
+    updateHeader (some ih) = some ih ∧ r'.length = ih.length :=
+  ⟨rfl, by omega⟩
+
+/-- GROUP BY together with ORDER BY or UPDATE is rejected from the query text: a parsing error, no record read, the
+writer untouched -/
+theorem C14_static_error_before_any_read (q : SemQuery) (A B : Table) (sink : Sink)
+    (h : q.groupBy.isSome = true ∧ (q.orderBy.isSome = true ∨ q.isUpdate = true)) :
+    (run q A B sink).error = some (.parsing .aggWithOrderDistinct) ∧ (run q A B sink).pulled = 0 ∧ (run q A B sink).sink = sink := by
+  unfold run
+  have hc : (q.groupBy.isSome && (q.orderBy.isSome || q.isUpdate)) = true := by
+    rcases h with ⟨h1, h2 | h2⟩ <;> simp [h1, h2]
+  simp [hc]
 
 /-! ## C15 — the broken pipe, at the level of `run` -/
 
